@@ -719,10 +719,10 @@ class FnAnalysis:
                 v = v2
             if ok:
                 return v
-            # rebuild on top of value
-            v = self.local_value(root[1], at)
-            if v[0] in ('load', 'call', 'param', 'phi', 'rec', 'unknown'):
-                e = v
+            # rebuild on top of the (immutable) value of the local
+            if root[1] not in self.addr_taken_mut() and (self.single_def(root[1]) is not None or
+                                                         (1 <= root[1] <= self.fn.argc and not self.defs().get(root[1]))):
+                e = self.local_value(root[1], at)
                 for c in chain:
                     e = apply_proj(e, c)
                 return ('pick', e)
